@@ -80,6 +80,53 @@ def corpus_cases():
                     for w in g.watch:
                         c.op("tree", w)
                     cases.append(c)
+    return cases + io_fault_cases()
+
+
+IO_DIRECTED = [("copyfile", "g", "zz"), ("movefile", "d/f", "m/zz"), ("copydir", "d", "zz"), ("movedir", "d", "zz"),
+               ("readtostring", "d/e/h", None), ("append", "low", None), ("append", "d/f", None), ("createfile", "d/e/n", None),
+               ("copyfile", "empty", "zz"), ("walkdir", "", None), ("removedirall", "d", None)]
+
+
+def io_fault_cases():
+    """failing handle I/O: from the arming on every read, or every write and flush, or all of them, on any handle fail.  The composites that stream
+    bytes (copy_file / move_file between or within instances without a native copy, copy_dir, move_dir, read_to_string,
+    the overlay's copy-up before an append) must report an error; the ones that move no bytes are unaffected"""
+    import random
+    rng = random.Random(23)
+    cases = []
+    for kind in CONFIGS:
+      for mode in ("r", "w", "rw"):
+        for opk, src, dst in IO_DIRECTED:
+            c = vfx.Case("c20_io%s_%s_%s_%s" % (mode, kind, opk, (src or "root").replace("/", "-")))
+            g = hist.build_config(c, kind, rng)
+            c.cfg = g
+            t = g.target
+            hist._matrix_setup(c, t)
+            hist.write_file(c, t, "empty", b"")
+            if g.prepop:
+                lo, sub = g.prepop[0]
+                hist.write_file(c, lo, (sub[1:] + "/" if sub else "") + "low", b"lower bytes")
+            else:
+                hist.write_file(c, t, "low", b"lower bytes")
+            c.op("snap", t)
+            c.first_snap = c.nops - 1
+            c.fault_step = c.op("setiofault", mode)
+            c.fault = (-1, 0)
+            before = c.nops
+            if opk in ("createfile", "append"):
+                h = c.op("createfile" if opk == "createfile" else "appendfile", hist._ps(t, src))
+                c.op("hwrite", h, vfx.hexs(b"NEW")); c.op("hflush", h); c.op("hdrop", h)
+            elif dst is not None:
+                c.op(opk, hist._ps(t, src), hist._ps(t, dst))
+            else:
+                c.op(opk, hist._ps(t, src))
+            c.faulted_ops = list(range(before, c.nops))
+            c.op("clearlog")
+            c.after_snap = c.op("snap", t)
+            for w in g.watch:
+                c.op("tree", w)
+            cases.append(c)
     return cases
 
 
@@ -113,8 +160,9 @@ def oracle(cases, mlines, ilines):
         for step, note in spec.check_case(c, g.target, ilines, fs):
             if step >= c.fault_step:
                 out.append(mk(c, step, mlines, ilines,
-                              "a call into an underlying filesystem failed (wrapper %d, call #%d) but the operation "
-                              "reported success with a wrong or partial effect: %s" % (c.fault[0], c.fault[1], note)))
+                              "a call into an underlying filesystem failed (%s) but the operation "
+                              "reported success with a wrong or partial effect: %s" % (
+                                  "every read/write/flush on a handle" if c.fault[0] < 0 else "wrapper %d, call #%d" % c.fault, note)))
                 break
     return out + c08.oracle([c for c in cases if c.cfg.upper], mlines, ilines)
 
@@ -133,7 +181,9 @@ P = histprop.HistProp(
     "C20", [], project=project, want_logs=True, extra_gen=gen_cases, oracle=oracle, known=known, corpus_cases=corpus_cases,
     rule=("DIRECTED: on one populated tree every composite operation (walk_dir, copy_dir, move_dir, remove_dir_all, copy_file, "
           "move_file, create_dir_all, read_to_string, read_dir) and the primitives an overlay turns into several calls, with "
-          "the k-th call through EACH instance of the stack failing, for every k in 0..11, on 11 stackings; RANDOM: "
+          "the k-th call through EACH instance of the stack failing, for every k in 0..11, on 11 stackings; the byte-streaming "
+          "composites (copy_file, move_file, copy_dir, move_dir, read_to_string, the overlay's copy-up) with every read, every "
+          "write and flush, or all of them failing on every handle; RANDOM: "
           "a fault-free typed history, then one operation (primitive, composite or observer) during which the k-th call "
           "(k in {0,1,2,3,4,5,7,10,14}; all k <= 16 in the thorough tier) that passes through the recording wrapper of one "
           "instance of the stack (the target, the underlying filesystem of an altroot, the upper or a lower layer of an "
